@@ -87,6 +87,31 @@ def strategy(tier):
     )
 
 
+def exhaustive(tier):
+    yield ("deep chain of nested prefix keys (as deep as set() can build): proofs for stored, prefix and absent keys",
+           iter([{"deep": 0}, {"deep": 1}]))
+
+
+def _run_deep(case, info):
+    from ..deepchain import build_chain
+
+    t, model, keys = build_chain(fan=bool(case["deep"]))
+    ref = RefTrie(model)
+    expect_eq("root-precondition", bytes(t.root_hash), ref.root_hash, "deep chain root")
+    probes = keys[::11] + keys[-3:] + [k + b"\x01" for k in keys[::29]] + [k[:-1] + bytes([k[-1] ^ 2]) for k in keys[::31]]
+    for k in probes:
+        proof = impl("get_proof-never-raises", t.get_proof, k)
+        encs = {n.enc for n in ref.path_nodes(nibbles_of(k))}
+        for node in proof:
+            expect("proof-only-path-nodes", rlp_encode(node) in encs, lambda: f"deep proof of {len(k)}-byte key has a foreign node")
+        got = impl("proof-complete", HexaryTrie.get_from_proof, t.root_hash, k, proof)
+        expect_eq("proof-complete", got, model.get(k, b""), f"get_from_proof for a {len(k)}-byte key of the deep chain")
+    info.count("deep_chain_levels", len(keys))
+    info.label("deep-chain")
+    info.nontrivial = len(keys) >= 100
+    return info
+
+
 def _hash(node):
     return keccak(rlp_encode(node))
 
@@ -135,6 +160,8 @@ def _alter(node, how, arg, val):
 
 def run_case(case):
     info = Info()
+    if "deep" in case:
+        return _run_deep(case, info)
     # ---- build T1 and T2 ---------------------------------------------------------
     db1 = {}
     mode = case.get("mode", 0)  # 0: plain trie, 1: pruning trie, 2: proofs taken inside a batch
